@@ -148,5 +148,12 @@ theorem propagateLoop_tolerance (cs : List (Constraint α)) (forms : List (Optio
         · rw [ih]; exact stepConstraint_tol _ _ _
       · exact ih _ _ _
 
+theorem enforceable_tol (an : Analyzer α) (domain : List (DomVar α)) :
+    (an.enforceable domain).tolerance = an.tolerance := by
+  unfold Analyzer.enforceable
+  split
+  · simp [Analyzer.fromDomain]
+  · rfl
+
 end BoundsProofs
 end Rooc
